@@ -271,7 +271,9 @@ def photo_child(payload):
             # rectangular cutouts: noise columns added on both sides (the source then sits at x = xc + left, beyond the row count)
             left, right = c.get("pad", (0, 0))
             if left or right:
-                img = np.concatenate([rng.normal(0, 1e-3, (N, left)) * np.abs(img).max(), img, rng.normal(0, 1e-3, (N, right)) * np.abs(img).max()], axis=1)
+                # the added columns carry the image's own noise level (noisier margins would pull photutils' whole-image moments)
+                pn = min(noise, 1e-3 * float(np.abs(img).max())) if c["what"] == "source" else 1e-3 * float(np.abs(img).max())
+                img = np.concatenate([rng.normal(0, pn, (N, left)), img, rng.normal(0, pn, (N, right))], axis=1)
             mask = None
             if c["mask"]:
                 mask = np.zeros(img.shape, bool)
